@@ -196,12 +196,72 @@ func runC05(c *core.Ctx) {
 			}
 			c05Case(c, cv, r, ch, ks, ss, se, xs, kd, ds, de, xd, caseID)
 		}
+		if cv.S == cv.D {
+			// same element type: both operands may be windows of one storage
+			for k := 0; k < c.Pick(6, 200); k++ {
+				caseID := fmt.Sprintf("%s/shared%d", cv.Name(), k)
+				if c.Want(caseID) {
+					c05Shared(c, cv, r, caseID)
+				}
+			}
+		}
 		c.Obs("instantiations_executed", 1)
 	}
 	c.Floor("instantiations_executed", int64(len(dyn.AllConvs())))
+	c.Floor("conversions_between_windows_of_one_buffer", 50)
 	c.Floor("source_longer", 100)
 	c.Floor("source_shorter", 100)
 	c.Floor("untouched_destination_tail_cells", 1000)
+}
+
+// c05Shared converts between two disjoint windows of ONE arena (same element
+// type), source before the destination and the other way round.
+func c05Shared(c *core.Ctx, cv *dyn.ConvOp, r *core.Rand, caseID string) {
+	name := cv.Name()
+	ch := r.Range(1, 4)
+	k := r.Range(4, 40)
+	cut := r.Range(1, k-1)
+	a := mon.NewArena(cv.S, ch, k, 11)
+	lo := [2]int{r.Range(0, cut-1), 0}
+	lo[1] = r.Range(lo[0]+1, cut)
+	hi := [2]int{r.Range(cut, k-1), 0}
+	hi[1] = r.Range(hi[0]+1, k)
+	srcW, dstW := lo, hi
+	if r.Bool() {
+		srcW, dstW = hi, lo
+	}
+	ws := a.Window(srcW[0], srcW[1], 0, 0)
+	wd := a.Window(dstW[0], dstW[1], 0, 0)
+	for i := 0; i < ws.B.Len(); i++ {
+		ws.B.RawAll().Set(i, randSample(r, cv.S.TypeInfo, cv.Fn == "FloatAsFloat"))
+		ws.Expect(i, ws.B.RawAt(i))
+	}
+	n := min(ws.B.Len(), wd.B.Len())
+	d := map[string]any{"fn": name, "channels": ch, "one_parent_of_frames": k, "src_window": srcW, "dst_window": dstW}
+	c.Eval(1)
+	c.Distinct(core.NewHash().Str(name).Str("shared").Int(ch).Int(k).Int(srcW[0]).Int(srcW[1]).Int(dstW[0]).Int(dstW[1]).Sum())
+	var got int
+	if p, msg := core.Guard(func() { got = cv.Call(ws.B, wd.B) }); p {
+		c.Violate(name+"|panic", caseID, "conversion between two windows of one buffer panicked: "+msg, d)
+		return
+	}
+	if want := min(srcW[1]-srcW[0], dstW[1]-dstW[0]); got != want {
+		c.Violate(name+"|count", caseID, fmt.Sprintf("returned %d, expected %d", got, want), d)
+	}
+	for i := 0; i < n; i++ {
+		v := a.Shadow[ws.Off+i]
+		cell := wd.B.RawAt(i)
+		ref, _, _ := convSingle(cv, v)
+		if !(cell.Same(ref) || (cell.K == dyn.KFloat && math.IsNaN(cell.F) && math.IsNaN(ref.F))) {
+			c.Violate(name+"|position-dependence", caseID, fmt.Sprintf("windows of one buffer: position %d: sample %v became %v, converted alone it gives %v", i, v, cell, ref), d)
+			return
+		}
+		wd.Expect(i, cell)
+	}
+	if ps := a.Verify(); len(ps) > 0 {
+		report(c, name+"|shared-storage-operands", caseID, ps, d)
+	}
+	c.Obs("conversions_between_windows_of_one_buffer", 1)
 }
 
 func c05Case(c *core.Ctx, cv *dyn.ConvOp, r *core.Rand, ch, ks, ss, se, xs, kd, ds, de, xd int, caseID string) {
